@@ -353,10 +353,10 @@ Definition parse_cases_ints (l : list int) : option (list ccase) :=
   | _ => None
   end.
 
-(** Indices of the cases on which model and implementation disagree;
-    [None] if the text does not decode. *)
-Definition mismatches_ints (l : list int) : option (list nat) :=
-  cs <- parse_cases_ints l ;; Some (mismatches cs).
+(** Number of cases decoded, and the indices of those on which model and
+    implementation disagree; [None] if the text does not decode. *)
+Definition mismatches_ints (l : list int) : option (nat * list nat) :=
+  cs <- parse_cases_ints l ;; Some (List.length cs, mismatches cs).
 
 Definition mismatches_text (t : string) : option (list nat) :=
   cs <- parse_cases t ;; Some (mismatches cs).
